@@ -821,9 +821,9 @@ def run(ctx):
     ctx.assumptions += ["local eigensolver (yastn.eigs, Lanczos without restart) and LAPACK QR/SVD are validated numerically, not proved",
                         "dense references: numpy.linalg.eigvalsh / matrix-vector products on to_tensor() embeddings"]
     budget = 55 if quick else 600
-    n_trace = 26 if quick else 300
-    n_conv = 5 if quick else 40
-    n_proj = 2 if quick else 16
+    n_trace = 40 if quick else 300
+    n_conv = 6 if quick else 40
+    n_proj = 3 if quick else 16
     t_start = time.time()
     for i in range(n_trace):
         if time.time() - t_start > budget * 0.55:
